@@ -148,6 +148,40 @@ def main(tier, seed):
                         else:
                             chk.inconclusive.append('public-API validation FAILED: %r offers %s, in scope %s' % (text, nres, exp))
                 chk.validated += okc
+        # native layer: after `module.` / `value.`, and prefix independence at a blank expression position
+        from . import dotk
+        nsurf = 0
+        for v in dotk.surfaces():
+            nsurf += 1
+            for site, p_ in dotk.check_surface(oracle, v)[:2]:
+                chk.violation('completion-' + site, 'enumerated', p_[:700], {'kind': 'surface', 'visibilities': list(v)}, confirmed=True)
+        npi = nbadpi = 0
+        seen_t = set()
+        for pool in BOUNDS[tier]['pool'][:1]:
+            for t in scopes.TEMPLATES:
+                it0 = scopes.W.interp('ide'); b0 = scopes.build(it0, t, pool)[0]
+                sol = z3.Solver(); sol.add(b0.constraints())
+                nm = 0
+                while sol.check() == z3.sat and nm < (6 if tier == 'quick' else 40):
+                    m = sol.model()
+                    assign = [m.eval(v_, model_completion=True).as_long() for v_ in b0.names]
+                    sol.add(z3.Or([v_ != a_ for v_, a_ in zip(b0.names, assign)]))
+                    nm += 1
+                    text = scopes.render_program(t, assign)[0]
+                    i = text.rstrip().rfind('}')
+                    marked = text[:i] + ' $0 ' + text[i:]
+                    if marked in seen_t:
+                        continue
+                    seen_t.add(marked)
+                    npi += 1
+                    pr = dotk.prefix_independence(oracle, marked)
+                    if pr:
+                        nbadpi += 1
+                        if nbadpi <= 3:
+                            chk.violation('completion-blank-position', 'path-model', pr[:700], {'kind': 'blank', 'text': marked}, confirmed=True)
+                    else:
+                        chk.validated += 1
+        chk.log('dot completion: %d module surfaces (visibilities z3-enumerated); blank expression position vs typed prefix on %d rendered programs, %d differ' % (nsurf, npi, nbadpi))
         from . import modscope
         modscope.W = scopes.W
         modscope.part_c18(chk, tier, jobs, oracle)
@@ -161,6 +195,7 @@ def main(tier, seed):
         'kernel claim: Resolver::values_names_in_scope (the separate walk the completion list is built from) contains a name exactly when Resolver::resolve_name finds a non-built-in definition for it, and both give the same definition - '
         'at every identifier position of %d function-body templates, for every assignment of local names and of two module-level names (a function and a constant) from the same pool, so that locals shadow module items' % len(scopes.TEMPLATES),
         'replaced range: SyntaxKind::is_keyword decided for all kinds (kernel); natively, for every keyword spelling, completion right after a partially typed name with that spelling must replace exactly that token',
+        'native layer (executed, not a solver verdict): after `module.` for every visibility combination of a function, a constant and a type with a constructor (z3-enumerated: pub / private, pub / pub opaque / private) - triggered by the dot, with a typed prefix and no trigger character, and with a record-typed parameter named like the module: exactly the public functions and the constructors of public non-opaque types (plus the fields of the value); and prefix independence: at the end of the body of 6 (thorough 40) z3 models per scope template, completion with nothing typed offers the same names as completion with a typed identifier',
         'completion contexts, dot completion (needs inference) and rendering need the database and are outside the claim (they are exercised only by the public-API validation of sampled paths)',
         'Gleam rejects duplicate names inside one pattern / parameter list: such assignments are excluded']
     chk.trusted += ['rustc MIR', 'mirsym interpreter + la_arena / SmolStr / IndexMap (association list incl. entry API) / Arc models', 'z3']
